@@ -5,7 +5,8 @@ from lib.sx import *
 from lib import obs, pyspec
 
 NAMES = ["$X", "$Y", "$Z", "$Long_name", "$x", "$X1", "$TemperatureReadingCelsius", "$TemperatureReadingKelvin",
-         "$A_name_of_more_than_thirty_two_characters_1", "$A_name_of_more_than_thirty_two_characters_2", "$\u00c9t\u00e9"]
+         "$A_name_of_more_than_thirty_two_characters_1", "$A_name_of_more_than_thirty_two_characters_2", "$\u00c9t\u00e9",
+         "$FirstElement", "$LastElement", "$LeftNeighbour", "$RightNeighbour"]
 def V(rng, zero=True):
     return var(0 if zero or rng.random() < 0.7 else rng.randint(1, 9), rng.choice(NAMES))
 
@@ -142,7 +143,7 @@ def cases(tier, rng):
     return res
 
 RULE = ("every term of the 119-term unification universe and random terms (depth <= 3: atoms, numbers, $_, [], variables with "
-        "11 names (also long ones that agree in their first 16 / 32 characters, and a non-ASCII one) and stale ids, complex terms, lists with tail variable / $_ tail, function terms, nested empty lists), goals "
+        "15 names (also long ones that agree in their first 16 / 32 or their last 8 characters, and a non-ASCII one) and stale ids, complex terms, lists with tail variable / $_ tail, function terms, nested empty lists), goals "
         "(calls, built-ins, !/fail/nl, nested and/or/not/time) and rules, renamed from several counter values; queries through "
         "make_query; searches in which facts with variables inside structures meet unbound goal variables before further clauses "
         "are fetched (answers against the exact reference search; also with the id counter first moved to 250 and to 65529..65535 with set_var_id, so that ids pass 2^8 and 2^16 during the search); clause fetch (get_rule) from knowledge bases of 1-3 clauses whose variables sit only inside lists, nested "
